@@ -1,23 +1,25 @@
 """T9: regenerate the arithmetic of LeapfrogIntegrator.__call__ (torchtree/inference/hmc/integrator.py) as Coq terms.
 
-The translator checks, statement by statement, that the method has the shape
+The method is READ SYMBOLICALLY (a small abstract interpreter), so that what is recognised is what the code does and
+in which order, not how it is spelt: local names are free, the gradient block may be written inline or as a local
+closure called twice, the diagonal/dense test may be hoisted out of the loop.  What must happen, in this order:
 
-    params = cat(parameter.tensor.detach().clone() ...); momentum = momentum.clone(); set_tensor(parameters, params)
-    U = model(); nan check; U.backward(); dU = -cat(parameter.grad ...); nan check
-    momentum = <FIRST>
+    q = cat(parameter.tensor.detach().clone() ...); p = momentum.clone(); set_tensor(parameters, q)
+    dU = GRAD                      (U = model(); nan check; U.backward(); dU = -cat(parameter.grad ...); nan check)
+    p = p - <FIRST>(p, dU)
     for _ in range(self.steps):
-        if inverse_mass_matrix.dim() == 1: params = <POS_DIAG>  else: params = <POS_DENSE>
-        set_tensor(parameters, params.detach()); U = model(); nan check; U.backward(); dU = -cat(...); nan check
-        momentum -= <LOOP>            (or momentum = momentum - <LOOP>)
+        q = <POSITION>(q, p, Minv)          one expression for a 1-d inverse mass matrix, one for a 2-d one
+        set_tensor(parameters, q.detach())  the NEW position
+        dU = GRAD                           the gradient AT the new position (after that set_tensor, before the update)
+        p = p - <LOOP>(p, dU)               with THAT gradient
     for parameter in parameters: parameter.requires_grad = False
-    momentum += <LAST>                (or momentum = momentum + <LAST>)
-    return momentum
+    p = p + <LAST>(p, dU)                   with the last gradient
+    return p
 
-and emits the four arithmetic expressions over the vocabulary of model/M_leapfrog.v (vectors: params, momentum,
-dU; scalar: self.step_size; inverse mass matrix: a vector in the first branch, a matrix in the second).  The order of
-the statements (position, gradient AT the new position, momentum) is part of what is recognised: anything else
-raises TranslateError (fail-closed).  prop/C16.v proves that the integrator assembled from these expressions in that
-order is the model's `leapfrog`.
+and the four arithmetic expressions are emitted over the vocabulary of model/M_leapfrog.v (vectors q, p, dU; scalar
+self.step_size; inverse mass matrix: a vector in the first branch, a matrix in the second).  Anything else raises
+TranslateError (fail-closed).  prop/C16.v proves that the integrator assembled from these expressions in that order is
+the model's `leapfrog`.
 """
 import ast
 import os
@@ -32,92 +34,281 @@ def _fail(node, msg):
     raise TranslateError(f"{msg}: line {getattr(node, 'lineno', '?')}: {ast.unparse(node)[:160]}")
 
 
-VEC, SCAL, DIAG, DENSE = "vec", "scal", "diag", "dense"
+# ----------------------------------------------------------------------------------------------------------- values
+# vector terms are nested tuples: ("sym", name) | ("vadd"|"vsub"|"vmul", a, b) | ("vscale", scalar, v) | ("vopp", v)
+#                                 | ("matvec", m, v);   scalar terms: ("eps",) | ("q", Fraction) | ("add"|..., a, b) | ("opp", a)
+class Vec:
+    def __init__(self, term, role, version=None):
+        self.term, self.role, self.version = term, role, version     # role: pos | mom | grad | diag | vec
+
+
+class Scal:
+    def __init__(self, term):
+        self.term = term
+
+
+class Mass:          # the inverse mass matrix before a branch has decided what it is
+    pass
+
+
+class Dense:
+    pass
+
+
+class IsDiag:        # inverse_mass_matrix.dim() == 1
+    pass
+
+
+class LogP:
+    def __init__(self, version):
+        self.version = version
+
+
+class Closure:
+    def __init__(self, fn):
+        self.fn = fn
+
+
+class Branch:        # a value that depends on IsDiag
+    def __init__(self, diag, dense):
+        self.diag, self.dense = diag, dense
 
 
 def _q(v):
     f = Fraction(v).limit_denominator(10 ** 9) if isinstance(v, float) else Fraction(v)
     if isinstance(v, float) and float(f) != v:
         raise TranslateError(f"literal {v!r} is not a small rational")
-    return f"(ofQ N ({f.numerator}#{f.denominator}))"
+    return f
 
 
-def _expr(n, env):
-    """-> (coq term, type)"""
-    if isinstance(n, ast.Name):
-        if n.id in env:
-            return env[n.id]
-        _fail(n, "unknown name")
-    if isinstance(n, ast.Attribute) and ast.unparse(n) == "self.step_size":
-        return "eps", SCAL
-    if isinstance(n, ast.Constant) and isinstance(n.value, (int, float)) and not isinstance(n.value, bool):
-        return _q(n.value), SCAL
-    if isinstance(n, ast.UnaryOp) and isinstance(n.op, ast.USub):
-        t, ty = _expr(n.operand, env)
-        if ty == VEC:
-            return f"(vopp N {t})", VEC
-        if ty == SCAL:
-            return f"(opp N {t})", SCAL
-        _fail(n, "negation of a matrix")
-    if isinstance(n, ast.BinOp):
-        a, ta = _expr(n.left, env)
-        b, tb = _expr(n.right, env)
-        op = type(n.op)
-        if op is ast.MatMult:
-            if ta == DENSE and tb == VEC:
-                return f"(matvec N {a} {b})", VEC
-            _fail(n, "@ is not matrix @ vector")
-        if op in (ast.Add, ast.Sub):
-            if ta == VEC and tb == VEC:
-                return f"({'vadd' if op is ast.Add else 'vsub'} N {a} {b})", VEC
-            if ta == SCAL and tb == SCAL:
-                return f"({'add' if op is ast.Add else 'sub'} N {a} {b})", SCAL
-            _fail(n, "sum of a scalar and a vector")
-        if op is ast.Mult:
-            if ta == SCAL and tb == SCAL:
-                return f"(mul N {a} {b})", SCAL
-            if ta == SCAL and tb in (VEC, DIAG):
-                return f"(vscale N {a} {b})", VEC if tb == VEC else DIAG
-            if ta in (VEC, DIAG) and tb == SCAL:
-                return f"(vscale N {b} {a})", VEC if ta == VEC else DIAG
-            if {ta, tb} <= {VEC, DIAG}:
-                return f"(vmul N {a} {b})", VEC
-            _fail(n, "unsupported product")
-        if op is ast.Div:
-            if ta == SCAL and tb == SCAL:
-                return f"(div N {a} {b})", SCAL
-            _fail(n, "unsupported division")
-    _fail(n, "unrecognised expression")
+def render(t):
+    k = t[0]
+    if k == "sym":
+        return t[1]
+    if k == "eps":
+        return "eps"
+    if k == "q":
+        return f"(ofQ N ({t[1].numerator}#{t[1].denominator}))"
+    if k in ("vadd", "vsub", "vmul", "add", "sub", "mul", "div"):
+        return f"({k} N {render(t[1])} {render(t[2])})"
+    if k == "vscale":
+        return f"(vscale N {render(t[1])} {render(t[2])})"
+    if k in ("vopp", "opp"):
+        return f"({k} N {render(t[1])})"
+    if k == "matvec":
+        return f"(matvec N {render(t[1])} {render(t[2])})"
+    raise TranslateError(f"cannot render {t!r}")
 
 
-GRAD_BLOCK = ["U = model()",
-              "if torch.isnan(U):\n    raise ValueError('potential energy is NAN')",
-              "U.backward()",
-              "dU = -torch.cat([parameter.grad for parameter in parameters], -1)",
-              "if torch.isnan(dU).any():\n    raise ValueError('gradient of potential energy contains NANs')"]
+def _mentions(t, name):
+    return t == ("sym", name) or any(isinstance(x, tuple) and _mentions(x, name) for x in t[1:])
 
 
-def _expect(stmts, i, wanted, what):
-    got = [ast.unparse(s) for s in stmts[i:i + len(wanted)]]
-    if got != wanted:
-        raise TranslateError(f"{what}: expected {wanted}, found {got}")
-    return i + len(wanted)
+def _role_of_sum(a, b):
+    for r in ("pos", "mom"):
+        if a.role == r and b.role != r:
+            return r
+    return "vec"
 
 
-def _update(stmt, name, sign, env):
-    """`name -= e` / `name = name - e`  (sign '-')  or the '+' forms  -> coq term of e (a vector)"""
-    if isinstance(stmt, ast.AugAssign) and isinstance(stmt.target, ast.Name) and stmt.target.id == name and \
-            isinstance(stmt.op, ast.Sub if sign == "-" else ast.Add):
-        t, ty = _expr(stmt.value, env)
-    elif isinstance(stmt, ast.Assign) and len(stmt.targets) == 1 and ast.unparse(stmt.targets[0]) == name and \
-            isinstance(stmt.value, ast.BinOp) and isinstance(stmt.value.op, ast.Sub if sign == "-" else ast.Add) and \
-            ast.unparse(stmt.value.left) == name:
-        t, ty = _expr(stmt.value.right, env)
-    else:
-        _fail(stmt, f"expected `{name} {sign}= ...`")
-    if ty != VEC:
-        _fail(stmt, "the increment is not a vector")
-    return t
+class Interp:
+    def __init__(self):
+        self.version = 0           # number of set_tensor calls so far
+        self.backward_at = None    # version at which U.backward() was last called
+        self.set_terms = []        # the terms written by set_tensor, in order
+        self.which = None          # None | "diag" | "dense": the branch being read
+
+    # ------------------------------------------------------------------------------------------------ expressions
+    def ev(self, n, env):
+        if isinstance(n, ast.Name):
+            if n.id not in env:
+                _fail(n, "unknown name")
+            v = env[n.id]
+            if isinstance(v, Branch) and self.which:
+                v = v.diag if self.which == "diag" else v.dense
+            if isinstance(v, Mass) and self.which:
+                v = Vec(("sym", "d"), "diag") if self.which == "diag" else Dense()
+            return v
+        if isinstance(n, ast.Attribute) and ast.unparse(n) == "self.step_size":
+            return Scal(("eps",))
+        if isinstance(n, ast.Constant) and isinstance(n.value, (int, float)) and not isinstance(n.value, bool):
+            return Scal(("q", _q(n.value)))
+        if isinstance(n, ast.UnaryOp) and isinstance(n.op, ast.USub):
+            v = self.ev(n.operand, env)
+            if isinstance(v, Vec):
+                return Vec(("vopp", v.term), "vec")
+            if isinstance(v, Scal):
+                return Scal(("opp", v.term))
+            _fail(n, "negation of something that is neither a vector nor a scalar")
+        if isinstance(n, ast.Compare) and ast.unparse(n) == "inverse_mass_matrix.dim() == 1" \
+                and isinstance(env.get("inverse_mass_matrix"), Mass):
+            return IsDiag()
+        if isinstance(n, ast.Call):
+            src = ast.unparse(n)
+            f = n.func
+            if isinstance(f, ast.Name) and isinstance(env.get(f.id), Closure) and not n.args and not n.keywords:
+                return self.call_closure(env[f.id], env)
+            if src == "model()":
+                return LogP(self.version)
+            if isinstance(f, ast.Attribute) and f.attr in ("detach", "clone") and not n.args and not n.keywords:
+                v = self.ev(f.value, env)
+                if isinstance(v, Vec) or (isinstance(v, Branch) and isinstance(v.diag, Vec) and isinstance(v.dense, Vec)):
+                    return v
+                _fail(n, "detach/clone of something that is not a vector")
+            if src == "torch.cat([parameter.tensor.detach().clone() for parameter in parameters], -1)":
+                return Vec(("sym", "q"), "pos")
+            if src == "-torch.cat([parameter.grad for parameter in parameters], -1)":
+                pass
+        if isinstance(n, ast.BinOp):
+            a, b = self.ev(n.left, env), self.ev(n.right, env)
+            if isinstance(a, Branch) or isinstance(b, Branch) or isinstance(a, Mass) or isinstance(b, Mass):
+                if self.which:
+                    _fail(n, "unresolved branch value")
+                out = {}
+                for w in ("diag", "dense"):
+                    self.which = w
+                    try:
+                        out[w] = self.ev(n, env)
+                    finally:
+                        self.which = None
+                return Branch(out["diag"], out["dense"])
+            op = type(n.op)
+            if op is ast.MatMult:
+                if isinstance(a, Dense) and isinstance(b, Vec):
+                    return Vec(("matvec", ("sym", "m"), b.term), "vec")
+                _fail(n, "@ is not matrix @ vector")
+            if op in (ast.Add, ast.Sub):
+                if isinstance(a, Vec) and isinstance(b, Vec) and "diag" not in (a.role, b.role):
+                    return Vec(("vadd" if op is ast.Add else "vsub", a.term, b.term), _role_of_sum(a, b))
+                if isinstance(a, Scal) and isinstance(b, Scal):
+                    return Scal(("add" if op is ast.Add else "sub", a.term, b.term))
+                _fail(n, "sum of a scalar and a vector")
+            if op is ast.Mult:
+                if isinstance(a, Scal) and isinstance(b, Scal):
+                    return Scal(("mul", a.term, b.term))
+                if isinstance(a, Scal) and isinstance(b, Vec):
+                    return Vec(("vscale", a.term, b.term), "diag" if b.role == "diag" else "vec")
+                if isinstance(a, Vec) and isinstance(b, Scal):
+                    return Vec(("vscale", b.term, a.term), "diag" if a.role == "diag" else "vec")
+                if isinstance(a, Vec) and isinstance(b, Vec):
+                    return Vec(("vmul", a.term, b.term), "vec")
+                _fail(n, "unsupported product")
+            if op is ast.Div:
+                if isinstance(a, Scal) and isinstance(b, Scal):
+                    return Scal(("div", a.term, b.term))
+                _fail(n, "unsupported division")
+        _fail(n, "unrecognised expression")
+
+    # ------------------------------------------------------------------------------------------------- statements
+    def is_nan_guard(self, s, env):
+        if not (isinstance(s, ast.If) and not s.orelse and len(s.body) == 1 and isinstance(s.body[0], ast.Raise)):
+            return False
+        t = s.test
+        if isinstance(t, ast.Call) and ast.unparse(t.func) == "torch.isnan" and len(t.args) == 1 \
+                and isinstance(t.args[0], ast.Name) and isinstance(env.get(t.args[0].id), LogP):
+            return True
+        if isinstance(t, ast.Call) and isinstance(t.func, ast.Attribute) and t.func.attr == "any" and not t.args \
+                and isinstance(t.func.value, ast.Call) and ast.unparse(t.func.value.func) == "torch.isnan" \
+                and len(t.func.value.args) == 1 and isinstance(t.func.value.args[0], ast.Name):
+            v = env.get(t.func.value.args[0].id)
+            return isinstance(v, Vec) and v.role == "grad"
+        return False
+
+    def stmt(self, s, env, in_closure=False):
+        """-> ('return', value) or None; mutates env"""
+        if isinstance(s, ast.Expr) and isinstance(s.value, ast.Constant):
+            return None
+        if isinstance(s, ast.Assert):
+            return None
+        if isinstance(s, ast.FunctionDef):
+            a = s.args
+            if a.args or a.vararg or a.kwarg or a.kwonlyargs or s.decorator_list:
+                _fail(s, "local function with arguments")
+            env[s.name] = Closure(s)
+            return None
+        if self.is_nan_guard(s, env):
+            return None
+        if isinstance(s, ast.Return):
+            if s.value is None:
+                _fail(s, "bare return")
+            return ("return", self.ev(s.value, env))
+        if isinstance(s, ast.Expr) and isinstance(s.value, ast.Call):
+            c = s.value
+            src = ast.unparse(c)
+            if isinstance(c.func, ast.Name) and c.func.id == "set_tensor" and len(c.args) == 2 and not c.keywords \
+                    and ast.unparse(c.args[0]) == "parameters":
+                v = self.ev(c.args[1], env)
+                if isinstance(v, Branch) and isinstance(v.diag, Vec) and isinstance(v.dense, Vec) \
+                        and v.diag.role == v.dense.role == "pos":
+                    written = ("branch", v.diag.term, v.dense.term)
+                elif isinstance(v, Vec) and v.role == "pos":
+                    written = v.term
+                else:
+                    _fail(s, "set_tensor does not write the position")
+                self.version += 1
+                self.set_terms.append(written)
+                return None
+            if isinstance(c.func, ast.Attribute) and c.func.attr == "backward" and not c.args and not c.keywords \
+                    and isinstance(c.func.value, ast.Name) and isinstance(env.get(c.func.value.id), LogP):
+                if env[c.func.value.id].version != self.version:
+                    _fail(s, "backward() on a value computed before the position was written")
+                self.backward_at = self.version
+                return None
+            _fail(s, "unrecognised call")
+        if isinstance(s, ast.Assign) and len(s.targets) == 1 and isinstance(s.targets[0], ast.Name):
+            name = s.targets[0].id
+            if ast.unparse(s.value) == "-torch.cat([parameter.grad for parameter in parameters], -1)":
+                if self.backward_at != self.version:
+                    _fail(s, "the gradient is read without a backward() at the current position")
+                env[name] = Vec(("sym", "dU"), "grad", self.version)
+                return None
+            env[name] = self.ev(s.value, env)
+            return None
+        if isinstance(s, ast.AugAssign) and isinstance(s.target, ast.Name) and isinstance(s.op, (ast.Add, ast.Sub)):
+            b = ast.BinOp(left=ast.Name(id=s.target.id, ctx=ast.Load()), op=s.op, right=s.value)
+            ast.copy_location(b, s)
+            ast.fix_missing_locations(b)
+            env[s.target.id] = self.ev(b, env)
+            return None
+        if isinstance(s, ast.If):
+            t = self.ev(s.test, env)
+            if not isinstance(t, IsDiag) or self.which:
+                _fail(s, "a conditional that is not the diagonal / dense test")
+            envs = {}
+            for w, body in (("diag", s.body), ("dense", s.orelse)):
+                if not body:
+                    _fail(s, "the diagonal / dense test lacks a branch")
+                e = dict(env)
+                self.which = w
+                try:
+                    for st in body:
+                        if not (isinstance(st, (ast.Assign, ast.AugAssign))):
+                            _fail(st, "only assignments may depend on the shape of the mass matrix")
+                        self.stmt(st, e)
+                finally:
+                    self.which = None
+                envs[w] = e
+            for k in set(envs["diag"]) | set(envs["dense"]):
+                a, b = envs["diag"].get(k), envs["dense"].get(k)
+                if a is b:
+                    continue
+                if not (isinstance(a, Vec) and isinstance(b, Vec) and a.role == b.role):
+                    _fail(s, f"`{k}` is not a vector of the same kind in both branches")
+                env[k] = Branch(a, b)
+            return None
+        _fail(s, "unrecognised statement")
+
+    def call_closure(self, c, env):
+        local = dict(env)
+        for st in c.fn.body:
+            r = self.stmt(st, local, in_closure=True)
+            if r:
+                return r[1]
+        _fail(c.fn, "the local function does not return")
+
+
+def _resolve(v, w):
+    return (v.diag if w == "diag" else v.dense) if isinstance(v, Branch) else v
 
 
 def translate(path=None):
@@ -132,57 +323,113 @@ def translate(path=None):
     fn = fns[0]
     if [a.arg for a in fn.args.args] != ["self", "model", "parameters", "momentum", "inverse_mass_matrix"]:
         _fail(fn, "unexpected signature")
-    body = [s for s in fn.body if not (isinstance(s, ast.Expr) and isinstance(s.value, ast.Constant))]
-    i = 0
-    while i < len(body) and isinstance(body[i], ast.Assert):
-        i += 1
-    i = _expect(body, i, ["params = torch.cat([parameter.tensor.detach().clone() for parameter in parameters], -1)",
-                          "momentum = momentum.clone()", "set_tensor(parameters, params)"] + GRAD_BLOCK,
-                "set-up and first gradient")
-    env = {"momentum": ("p", VEC), "dU": ("dU", VEC), "params": ("q", VEC)}
-    # momentum = momentum - eps/2 * dU
-    first = _update(body[i], "momentum", "-", env)
-    i += 1
-    lp = body[i]
-    if not (isinstance(lp, ast.For) and ast.unparse(lp.iter) == "range(self.steps)" and not lp.orelse):
-        _fail(lp, "expected `for _ in range(self.steps)`")
-    i += 1
-    lb = lp.body
-    br = lb[0]
-    if not (isinstance(br, ast.If) and ast.unparse(br.test) == "inverse_mass_matrix.dim() == 1"
-            and len(br.body) == 1 and len(br.orelse) == 1):
-        _fail(br, "expected the diagonal / dense branch on inverse_mass_matrix.dim() == 1")
+    it = Interp()
+    env = {"momentum": Vec(("sym", "p"), "mom"), "inverse_mass_matrix": Mass()}
+    body = list(fn.body)
+    loops = [i for i, s in enumerate(body) if isinstance(s, ast.For) and ast.unparse(s.iter) == "range(self.steps)"]
+    if len(loops) != 1 or body[loops[0]].orelse:
+        _fail(fn, "expected exactly one `for _ in range(self.steps)`")
+    li = loops[0]
+    # ---- before the loop
+    for s in body[:li]:
+        if it.stmt(s, env):
+            _fail(s, "return before the loop")
+    if it.version != 1 or it.set_terms != [("sym", "q")]:
+        _fail(fn, "the starting position is not written into the parameters exactly once before the first gradient")
+
+    def only(role):
+        names = [k for k, v in env.items() if isinstance(v, Vec) and v.role == role]
+        return names
+
+    moms, grads, poss = only("mom"), only("grad"), only("pos")
+    if not grads or any(env[g].version != 1 for g in grads):
+        _fail(fn, "no gradient at the starting position before the first momentum update")
+    first = None
+    for k in moms:
+        t = env[k].term
+        if t[0] == "vsub" and t[1] == ("sym", "p"):
+            first = t[2]
+    if first is None or _mentions(first, "q"):
+        _fail(fn, "the momentum is not `momentum - <increment>` before the loop")
+    # ---- the loop body, read once with the loop-carried values named q, p, dU_old
+    lp = body[li]
+    assigned = {n.id for st in lp.body for n in ast.walk(st) if isinstance(n, ast.Name) and isinstance(n.ctx, ast.Store)}
+    carried = {}
+    for k in sorted(assigned & set(env)):
+        v = env[k]
+        if isinstance(v, Vec) and v.role in ("pos", "mom", "grad"):
+            if v.role in carried:
+                _fail(lp, f"two loop-carried {v.role} variables")
+            carried[v.role] = k
+    if set(carried) != {"pos", "mom", "grad"}:
+        _fail(lp, "the loop does not update position, momentum and gradient")
+    lenv = dict(env)
+    lenv[carried["pos"]] = Vec(("sym", "q"), "pos")
+    lenv[carried["mom"]] = Vec(("sym", "p"), "mom")
+    lenv[carried["grad"]] = Vec(("sym", "dU_old"), "grad", -1)
+    v0 = it.version
+    nset = len(it.set_terms)
+    for s in lp.body:
+        if it.stmt(s, lenv):
+            _fail(s, "return inside the loop")
+    if it.version != v0 + 1:
+        _fail(lp, "the new position is not written into the parameters exactly once per step")
+    newpos, newmom, newgrad = lenv[carried["pos"]], lenv[carried["mom"]], lenv[carried["grad"]]
+    if not (isinstance(newgrad, Vec) and newgrad.version == it.version):
+        _fail(lp, "no gradient is computed at the new position")
     pos = {}
-    for tag, st, ty in (("diag", br.body[0], DIAG), ("dense", br.orelse[0], DENSE)):
-        if not (isinstance(st, ast.Assign) and ast.unparse(st.targets[0]) == "params"):
-            _fail(st, "expected `params = ...`")
-        e = dict(env)
-        e["inverse_mass_matrix"] = ("d" if ty == DIAG else "m", ty)
-        t, tty = _expr(st.value, e)
-        if tty != VEC:
-            _fail(st, "the new position is not a vector")
-        pos[tag] = t
-    j = _expect(lb, 1, ["set_tensor(parameters, params.detach())"] + GRAD_BLOCK, "gradient at the new position")
-    loop = _update(lb[j], "momentum", "-", env)
-    if j + 1 != len(lb):
-        _fail(lb[j + 1], "unexpected statement at the end of the loop body")
-    i = _expect(body, i, ["for parameter in parameters:\n    parameter.requires_grad = False"], "after the loop")
-    last = _update(body[i], "momentum", "+", env)
-    i += 1
-    i = _expect(body, i, ["return momentum"], "return")
-    if i != len(body):
-        _fail(body[i], "unexpected trailing statement")
+    for w in ("diag", "dense"):
+        p_ = _resolve(newpos, w)
+        if not isinstance(p_, Vec) or _mentions(p_.term, "dU") or _mentions(p_.term, "dU_old"):
+            _fail(lp, "the new position is not a function of position, momentum and mass matrix")
+        pos[w] = p_.term
+    written = it.set_terms[nset]
+    it.which = None
+    # what set_tensor wrote must be the new position (branch by branch)
+    if isinstance(newpos, Branch):
+        ok = written == ("branch", newpos.diag.term, newpos.dense.term)
+    else:
+        ok = written == newpos.term
+    if not ok:
+        _fail(lp, "what is written into the parameters is not the new position")
+    if not (isinstance(newmom, Vec) and newmom.term[0] == "vsub" and newmom.term[1] == ("sym", "p")):
+        _fail(lp, "the momentum update is not `momentum - <increment>`")
+    loop = newmom.term[2]
+    if _mentions(loop, "dU_old") or not _mentions(loop, "dU"):
+        _fail(lp, "the momentum is not updated with the gradient at the NEW position")
+    # ---- after the loop
+    env[carried["pos"]] = Vec(("sym", "q"), "pos")
+    env[carried["mom"]] = Vec(("sym", "p"), "mom")
+    env[carried["grad"]] = Vec(("sym", "dU"), "grad", it.version)
+    rest = body[li + 1:]
+    reset = "for parameter in parameters:\n    parameter.requires_grad = False"
+    if not rest or ast.unparse(rest[0]) != reset:
+        _fail(rest[0] if rest else fn, "after the loop: expected the requires_grad reset")
+    ret = None
+    for s in rest[1:]:
+        r = it.stmt(s, env)
+        if r:
+            ret = r[1]
+            if s is not rest[-1]:
+                _fail(s, "statements after the return")
+    if it.version != v0 + 1:
+        _fail(fn, "the parameters are written after the loop")
+    if not (isinstance(ret, Vec) and ret.term[0] == "vadd" and ret.term[1] == ("sym", "p")):
+        _fail(fn, "the method does not return `momentum + <increment>`")
+    last = ret.term[2]
+    if _mentions(last, "q"):
+        _fail(fn, "the last increment depends on the position")
     out = ["(* GENERATED by harness/translate/t9_leapfrog.py from torchtree/inference/hmc/integrator.py — do not edit *)",
            "From Coq Require Import QArith List.", "Import ListNotations.", "From TT Require Import Num M_leapfrog.", "",
            "Section Gen.", "Context {T : Type} (N : Num T).", "Variable eps : T.", "",
            "(* momentum = momentum - <...> before the loop: the increment *)",
-           f"Definition g_first (p dU : list T) : list T := {first}.",
+           f"Definition g_first (p dU : list T) : list T := {render(first)}.",
            "(* params = <...> inside the loop, diagonal and dense inverse mass matrix *)",
-           f"Definition g_position (Minv : mass T) (q p : list T) : list T :=\n  match Minv with Diag d => {pos['diag']} | Dense m => {pos['dense']} end.",
+           f"Definition g_position (Minv : mass T) (q p : list T) : list T :=\n  match Minv with Diag d => {render(pos['diag'])} | Dense m => {render(pos['dense'])} end.",
            "(* momentum -= <...> inside the loop, after the gradient at the new position *)",
-           f"Definition g_loop (p dU : list T) : list T := {loop}.",
+           f"Definition g_loop (p dU : list T) : list T := {render(loop)}.",
            "(* momentum += <...> after the loop *)",
-           f"Definition g_last (p dU : list T) : list T := {last}.", "",
+           f"Definition g_last (p dU : list T) : list T := {render(last)}.", "",
            "End Gen."]
     return "\n".join(out) + "\n"
 
